@@ -1,17 +1,30 @@
 import AslModel.Lemmas.Addr
 import AslModel.Lemmas.AddrRefine
+import AslModel.Lemmas.AddrStruct
+import AslModel.Lemmas.AddrStructCor
 /-!
 # C10 — address bookkeeping: ORG, RORG, ALIGN, reservations, SEGMENT, PHASE/DEPHASE, SAVE/RESTORE, STRUCT
 
 MODEL `Model/Addr.lean` (transcription of asmallg.c / as.c WriteCode / asmsub.c / asmlabel.c / asmstructs.c),
 SPEC `Spec/AddrSpec.lean` (abstract machine written from doc/pseudo-instructions.md).
 
-`C10_refine_partial` is proved for every statement list **outside structure bodies** (all of ORG, RORG, ALIGN, DS, data,
-SEGMENT, CPU, PHASE, DEPHASE, SAVE, RESTORE, LISTING, labels), for both flavours of `CodeORG_Core`
-(`Cfg.orgLoad`), with the side conditions `Pre` explicit.  Full statement wanted by DESIGN.md 4.10 (not yet
-proved): the same with STRUCT/UNION/ENDSTRUCT frames in the relation `R` (nested and nameless structures); for
-these `C10_struct_flat` below proves the single-level case directly on the model, the nested cases are covered
-by the differential run against the real assembler and by the executable spec only.
+`C10_refine` is the full statement of DESIGN.md 4.10: the simulation for **every** statement list - ORG, RORG, ALIGN, DS,
+data, SEGMENT, CPU, PHASE, DEPHASE, SAVE, RESTORE, LISTING, labels, and arbitrarily nested STRUCT/UNION/ENDSTRUCT/ENDUNION
+bodies (named and nameless, unions in structures and structures in unions) with fields, reservations, ALIGN, ORG/RORG and
+labels inside - for both flavours of `CodeORG_Core` (`Cfg.orgLoad`), with the side conditions `Pre` explicit.
+The relation `R` (`Lemmas/AddrStruct.lean`) is `Rout` outside bodies and `Rin` inside: the enclosing segment related as
+outside, `ActPC = StructSeg`, and the frame relation `FR` between `TStructStack` and the spec's frames, which carries the
+invariant "`TotLen` ≤ lower bound of the frame's final length" through nameless frames and unions.
+`C10_refine_partial` (statement lists without STRUCT/ENDSTRUCT) is kept as a corollary.
+
+Remaining restrictions (all decidable, part of `Pre`):
+* outside bodies the side conditions of the partial theorem (`PreOut`);
+* inside a body: the operand of a reservation/data statement is below 2^31 and `$ + n - 1 < 2^31` for `ALIGN n` (`CodeLen`,
+  `NewPC : LongInt`), and after every statement the outermost open structure - counted with its open members - is shorter
+  than 2^31 units: `TotLen`/`CodeLen` are 32-bit `LongInt`s; at the excluded point the code defines a wrong length symbol
+  (known finding `struct-length-wraps-at-2^31`, `C10_finding_struct_length_wraps`);
+* statements the manual does not define inside a body (SAVE/RESTORE/SEGMENT/CPU, ORG/RORG backwards or in a union, ALIGN with a
+  fill value) end the spec run (`Res.unspecified`), as before.
 -/
 namespace AslModel.C10
 open AslModel.Addr AslModel.Generated
@@ -30,19 +43,52 @@ theorem C10_tables :
   all_goals try unfold segP
   all_goals (repeat' split) <;> simp_all [noSeg, structSeg]
 
-/- Full statement (DESIGN.md 4.10) – not yet proved: `C10_refine`, the same simulation with STRUCT/UNION/ENDSTRUCT
-   allowed in `sts` and the open structure frames (nested, nameless, inside unions) part of `R`.  Missing: the frame
-   component of `R` and the invariant `TotLen ≤ counter` through nameless frames.  The decidable restriction is
-   `Pre … = False` on `.struct`/`.endstruct` (`isStructOp`). -/
-/-- **Refinement** (outside structure bodies): from related states, for every statement list the spec machine accepts (within the explicit
-side conditions), the model runs without error or crash, ends in a related state, and defines exactly the
-spec's symbols with the spec's values (mod 2^64).  Induction over the statement list. -/
-theorem C10_refine_partial (cfg : Cfg) (segs : Nat → Nat → AddrSpec.SegInfo) (hag : Agree segs) (sts : List Stmt) (s : St) (a : AddrSpec.A)
+/-- **Refinement** (every statement list, including nested STRUCT/UNION bodies): from related states, for every statement
+list the spec machine accepts (within the explicit side conditions `RunPre`), the model runs without error or crash, ends in
+a related state (inside or outside a body), and defines exactly the spec's symbols with the spec's values (mod 2^64) - labels,
+structure fields (`<names of the enclosing named structures>_<field>` = offset from the outermost structure's start; 0 for a
+union member plus the union's own offset), nested structure names and the length symbols.  Induction over the statement list. -/
+theorem C10_refine (cfg : Cfg) (segs : Nat → Nat → AddrSpec.SegInfo) (hag : Agree segs) (sts : List Stmt) (s : St) (a : AddrSpec.A)
     (hR : R s a) (hpre : RunPre cfg segs a sts) (a' : AddrSpec.A) (ds : List (List (Sym × Int)))
     (hrun : AddrSpec.run segs a sts = some (a', ds)) :
     R (run cfg s sts).1 a' ∧ (run cfg s sts).2.map (fun o => o.defs) = ds.map wrapDefs ∧
     (∀ o ∈ (run cfg s sts).2, o.errs = [] ∧ o.crash = false) ∧ (run cfg s sts).2.length = sts.length :=
   refine_run cfg segs hag sts s a hR hpre a' ds hrun
+
+/-- one step, including the rejecting direction: a statement the manual rejects (data, PHASE/DEPHASE inside a body, `ALIGN 0`,
+ENDSTRUCT without STRUCT, a nameless structure outside a named one, an address outside the segment, …) makes the model
+report an error (or hit the `% 0` of `ALIGN 0`) -/
+theorem C10_refine_step (cfg : Cfg) (segs : Nat → Nat → AddrSpec.SegInfo) (hag : Agree segs) (s : St) (a : AddrSpec.A)
+    (hR : R s a) (st : Stmt) (hp : Pre cfg segs a st) : Sim cfg segs s a st :=
+  refine_step cfg segs hag hR st hp
+
+/-! Non-vacuity of `C10_refine`: a concrete program with a nested nameless union, a named inner structure, ALIGN, ORG and labels
+inside bodies, between ordinary statements, meets `RunPre`, is accepted by the spec and defines the expected symbols
+(`N1_N2 = 0`, `N1_N3 = 2`, `N1_N4 = 2` (both union members at the union's offset), `N1_N5 = 8` (inner structure after ALIGN 4 of 6),
+`N1_N5_N6 = 8`, `N1_N5_LEN = 3`, `N1_N7 = 11`, `N1_LEN = 12`). -/
+def exStruct : List Stmt :=
+  [⟨some 9, .org 256⟩, ⟨none, .struct (some 1) false⟩, ⟨some 2, .res 2⟩, ⟨none, .struct none true⟩, ⟨some 3, .res 4⟩, ⟨some 4, .res 2⟩,
+   ⟨none, .endstruct⟩, ⟨none, .align 4 none⟩, ⟨none, .struct (some 5) false⟩, ⟨some 6, .res 3⟩, ⟨none, .endstruct⟩, ⟨some 7, .res 1⟩,
+   ⟨none, .endstruct⟩, ⟨some 8, .emit 2⟩]
+example : RunPre {} AddrSpec.manualSegs (AddrSpec.init AddrSpec.manualSegs 0) exStruct :=
+  runPreB_sound _ _ _ _ (by decide)
+example : ((AddrSpec.run AddrSpec.manualSegs (AddrSpec.init AddrSpec.manualSegs 0) exStruct).map (fun r => r.2)) =
+    some [[(⟨[], some 9⟩, 0)], [], [(⟨[1], some 2⟩, 0)], [], [(⟨[1], some 3⟩, 2)], [(⟨[1], some 4⟩, 2)], [], [], [(⟨[1], some 5⟩, 8)],
+          [(⟨[1, 5], some 6⟩, 8)], [(⟨[1, 5], none⟩, 3)], [(⟨[1], some 7⟩, 11)], [(⟨[1], none⟩, 12)], [(⟨[], some 8⟩, 256)]] := by decide
+example : (run {} (init 0) exStruct).2.map (fun o => o.defs) =
+    [[(⟨[], some 9⟩, 0)], [], [(⟨[1], some 2⟩, 0)], [], [(⟨[1], some 3⟩, 2)], [(⟨[1], some 4⟩, 2)], [], [], [(⟨[1], some 5⟩, 8)],
+     [(⟨[1, 5], some 6⟩, 8)], [(⟨[1, 5], none⟩, 3)], [(⟨[1], some 7⟩, 11)], [(⟨[1], none⟩, 12)], [(⟨[], some 8⟩, 256)]] := by decide
+
+def noStructOps (sts : List Stmt) : Prop := ∀ st ∈ sts, isStructOp st.op = false
+
+/-- **Refinement outside structure bodies** (the statement proved first; now a corollary of `C10_refine`): statement lists
+without STRUCT/UNION/ENDSTRUCT. -/
+theorem C10_refine_partial (cfg : Cfg) (segs : Nat → Nat → AddrSpec.SegInfo) (hag : Agree segs) (sts : List Stmt) (s : St) (a : AddrSpec.A)
+    (hR : R s a) (_hns : noStructOps sts) (hpre : RunPre cfg segs a sts) (a' : AddrSpec.A) (ds : List (List (Sym × Int)))
+    (hrun : AddrSpec.run segs a sts = some (a', ds)) :
+    R (run cfg s sts).1 a' ∧ (run cfg s sts).2.map (fun o => o.defs) = ds.map wrapDefs ∧
+    (∀ o ∈ (run cfg s sts).2, o.errs = [] ∧ o.crash = false) ∧ (run cfg s sts).2.length = sts.length :=
+  C10_refine cfg segs hag sts s a hR hpre a' ds hrun
 
 /-! Non-vacuity: a concrete program (ORG, PHASE, data with label, DEPHASE, SEGMENT, DS, SAVE/RESTORE, ALIGN) meets
 `RunPre` for the pinned flavour of ORG, is accepted by the spec, and starts from related states. -/
@@ -51,19 +97,47 @@ def exProg : List Stmt :=
    ⟨some 3, .res 2⟩, ⟨none, .restore⟩, ⟨none, .align 8 none⟩, ⟨some 4, .emit 1⟩]
 example : RunPre {} AddrSpec.manualSegs (AddrSpec.init AddrSpec.manualSegs 0) exProg :=
   runPreB_sound _ _ _ _ (by decide)
+example : noStructOps exProg := by unfold noStructOps; decide
 example : (AddrSpec.run AddrSpec.manualSegs (AddrSpec.init AddrSpec.manualSegs 0) exProg).isSome = true := by decide
 example : ((AddrSpec.run AddrSpec.manualSegs (AddrSpec.init AddrSpec.manualSegs 0) exProg).map (fun r => r.2)) =
     some [[(⟨[], some 1⟩, 0)], [], [(⟨[], some 2⟩, 4096)], [], [], [], [(⟨[], some 3⟩, 48)], [], [], [(⟨[], some 4⟩, 264)]] := by decide
 
-/-- one step, including the rejecting direction: a statement the manual rejects makes the model report an error
-(or hit the `% 0` of `ALIGN 0`) -/
+/-- one step outside a body, with the side conditions of the first version (`PreOut`) -/
 theorem C10_refine_step_partial (cfg : Cfg) (segs : Nat → Nat → AddrSpec.SegInfo) (hag : Agree segs) (s : St) (a : AddrSpec.A)
-    (hR : R s a) (st : Stmt) (hp : Pre cfg a st) : Sim cfg segs s a st :=
-  refine_step cfg segs hag hR st hp
+    (hR : Rout s a) (st : Stmt) (hp : PreOut cfg a st) : Sim cfg segs s a st :=
+  Sim_of_out (refine_step_out cfg segs hag hR st hp)
 
 /-- the states after the leading `CPU c` are related -/
 theorem C10_init_related (c : Nat) : R (init c) (AddrSpec.init AddrSpec.manualSegs c) :=
-  R_init _ C10_tables.2.2.2.2.2.2 c
+  R_init_full _ C10_tables.2.2.2.2.2.2 c
+
+/-- a source without leading CPU statement (target from the command line): after its first statement that places nothing
+and switches nothing (OUTRADIX, LISTING, an empty line - here `nop`) `WriteCode` has marked the initial CODE segment as used and the
+state is related to the spec's initial state exactly like `init c`; from there `C10_refine` applies.  (With
+`PCsUsed[ActPC] = True` only for `CodeLen != 0` this fails and a following `ORG … SEGMENT x … SEGMENT CODE` loses the ORG.) -/
+theorem C10_init_cmdline (cfg : Cfg) (c : Nat) :
+    R (step cfg (initCmdline c) ⟨none, .nop⟩).1 (AddrSpec.init AddrSpec.manualSegs c) ∧
+    (step cfg (initCmdline c) ⟨none, .nop⟩).2.errs = [] ∧ (step cfg (initCmdline c) ⟨none, .nop⟩).2.crash = false ∧
+    (∀ t, (step cfg (initCmdline c) ⟨none, .nop⟩).1.used t = (init c).used t) := by
+  have hag : Agree AddrSpec.manualSegs := C10_tables.2.2.2.2.2.2
+  have h0 := R_init AddrSpec.manualSegs hag c
+  have hns : (initCmdline c).actPC ≠ structSeg := by simp [initCmdline, init, segCode, structSeg]
+  have hw := writeCode_ok { s := initCmdline c } hns rfl (Or.inr rfl)
+  have hstep : step cfg (initCmdline c) ⟨none, .nop⟩ = writeCode { s := initCmdline c } := by
+    simp [step, labelPart, decode]
+  rw [hstep, hw]
+  have hr := hag.initRange c 1
+  have hi := hag.init c 1
+  refine ⟨Or.inl ?_, rfl, rfl, ?_⟩
+  · refine Rout_congr h0 rfl rfl rfl rfl rfl ?_ ?_ (fun _ => rfl) (fun _ => rfl)
+    · intro t; by_cases ht : t = 1 <;> simp [initCmdline, init, upd, segCode, ht]
+    · intro t _
+      by_cases ht : t = 1
+      · subst ht
+        simp only [initCmdline, init, upd, pc, segCode, if_true]
+        rw [hi, Int.add_zero, wrap64_small hr.1 hr.2]
+      · simp [initCmdline, init, upd, segCode, ht]
+  · intro t; by_cases ht : t = 1 <;> simp [initCmdline, init, upd, segCode, ht]
 
 /-- **Segments are isolated**: a statement executed in segment `s.actPC` (possibly switching to another one)
 leaves counter, phase offset and phase stack of every other segment unchanged – PHASE does not leak. -/
@@ -73,8 +147,10 @@ theorem C10_segments_isolated (cfg : Cfg) (s : St) (st : Stmt) (t : Nat) (h1 : t
   step_same cfg s st t h1 h2
 
 /-- **Labels read load address + active phase offset** (mod 2^64). -/
-theorem C10_label_value (cfg : Cfg) (s : St) (a : AddrSpec.A) (hR : R s a) (l : Nat) (op : Op) (hs : isStructOp op = false) :
+theorem C10_label_value (cfg : Cfg) (s : St) (a : AddrSpec.A) (hR' : R s a) (hout : a.frames = []) (l : Nat) (op : Op)
+    (hs : isStructOp op = false) :
     ∃ rest, (step cfg s ⟨some l, op⟩).2.defs = (⟨[], some l⟩, wrap64 (a.pc a.seg + AddrSpec.off a a.seg)) :: rest := by
+  have hR := R_frames_nil hR' hout
   have h := labelPart_R hR ⟨some l, op⟩ hs
   refine ⟨(writeCode (decode cfg s op)).2.defs, ?_⟩
   simp only [step, h, modelLabelDefs, R_epc hR, AddrSpec.dollar, hR.frames, List.cons_append, List.nil_append]
@@ -222,6 +298,172 @@ theorem C10_struct_end (cfg : Cfg) (s : St) (f : Frame) (hst : s.structs = [f]) 
   unfold writeCode
   simp [hsv, pc, upd, Ne.symm hsv]
 
+/-- **A field inside a body is defined as its offset**: a label on a statement inside (nested) structure bodies defines
+`<names of the enclosing named structures>_<label>` as `$` of the innermost body (0 in a union) plus the offsets of the
+enclosing structures relative to the outermost one, and leaves the spec state alone. -/
+theorem C10_field_value (s : St) (a : AddrSpec.A) (hR : R s a) (hin : a.frames ≠ []) (l : Nat) (op : Op)
+    (hs : isStructOp op = false) :
+    (labelPart s ⟨some l, op⟩).2 =
+      [(⟨AddrSpec.namedPath a.frames, some l⟩, wrap64 (AddrSpec.dollar a + AddrSpec.baseSum a.frames))] ∧
+    R (labelPart s ⟨some l, op⟩).1 a := by
+  obtain ⟨s1, h1, h2⟩ := labelPart_in (R_frames_ne hR hin) ⟨some l, op⟩
+  rw [h1]
+  refine ⟨?_, Or.inr h2⟩
+  have : labelPresent ⟨some l, op⟩ = true := by cases op <;> simp_all [labelPresent, isStructOp]
+  simp [labelDefs_eq, this, labelDef_in a l hin, wrapDefs]
+
+/-- **A STRUCT/UNION body emits no code and leaves the segment counters alone.**  From related states outside a body:
+`hd` opens a structure, every statement of `body` ends inside a body (`InBody` - nested structures included), `tl` closes the
+outermost one (`a'.frames = []`); the spec accepts the run within `RunPre`.  Then no statement from STRUCT to the last body
+statement hands anything to the code file (`ev = none`), the closing ENDSTRUCT only restarts the record at the *unchanged*
+counter of the enclosing segment (`jump`, no bytes), nothing reports an error, and afterwards the active segment and every
+counter except the pseudo segment's are what they were before STRUCT - in the model and in the spec. -/
+theorem C10_struct_emits_nothing (cfg : Cfg) (segs : Nat → Nat → AddrSpec.SegInfo) (hag : Agree segs) (s : St) (a : AddrSpec.A)
+    (hR : R s a) (hout : a.frames = []) (hd : Stmt) (body : List Stmt) (tl : Stmt)
+    (hpre : RunPre cfg segs a (hd :: (body ++ [tl]))) (hib : InBody segs a (hd :: body))
+    (a' : AddrSpec.A) (ds : List (List (Sym × Int)))
+    (hrun : AddrSpec.run segs a (hd :: (body ++ [tl])) = some (a', ds)) (hend : a'.frames = []) :
+    (∃ outs last, (run cfg s (hd :: (body ++ [tl]))).2 = outs ++ [last] ∧
+       (∀ o ∈ outs, o.ev = .none ∧ o.errs = [] ∧ o.crash = false) ∧
+       last.ev = .jump (s.pcs s.actPC) ∧ last.errs = [] ∧ last.crash = false) ∧
+    (run cfg s (hd :: (body ++ [tl]))).1.actPC = s.actPC ∧
+    (∀ t, t ≠ structSeg → (run cfg s (hd :: (body ++ [tl]))).1.pcs t = s.pcs t) ∧
+    R (run cfg s (hd :: (body ++ [tl]))).1 a' ∧ a'.pc = a.pc ∧ a'.seg = a.seg := by
+  have h0 := R_frames_nil hR hout
+  have hsim := refine_step cfg segs hag hR hd hpre.1
+  have hp2 := hpre.2
+  unfold Sim at hsim
+  simp only [AddrSpec.run] at hrun
+  simp only [InBody] at hib
+  cases hst : AddrSpec.step segs a hd with
+  | reject => simp [hst] at hrun
+  | unspecified => simp [hst] at hrun
+  | ok a1 d =>
+    rw [hst] at hsim hrun hp2 hib
+    simp only [Option.map_eq_some_iff] at hrun
+    obtain ⟨⟨a2, ds2⟩, hr2, heq⟩ := hrun
+    simp only [Prod.mk.injEq] at heq
+    obtain ⟨rfl, rfl⟩ := heq
+    obtain ⟨hR1, he1, hc1, hd1⟩ := hsim
+    have h1 : Rin (step cfg s hd).1 a1 := R_frames_ne hR1 hib.1
+    obtain ⟨k1, k2, k3⟩ := spec_keeps segs a hd a1 d hst (Or.inr hib.1)
+    obtain ⟨⟨outs, last, j1, j2, j3, j4, j5⟩, i2, i3, i4, i5, i6⟩ :=
+      body_then_end cfg segs hag tl body (step cfg s hd).1 a1 h1 hp2 hib.2 a2 ds2 hr2 hend
+    have hseg : (step cfg s hd).1.structSaveSeg = s.actPC := by rw [Rin_seg h1, k2, h0.seg]
+    -- the first step leaves every real counter alone
+    have hfirst : ∀ t, t ≠ structSeg → (step cfg s hd).1.pcs t = s.pcs t := by
+      intro t ht
+      by_cases hta : t = s.actPC
+      · subst hta
+        have hs1 : a.started s.actPC = true := by rw [h0.seg]; exact R_started h0
+        rw [Rin_pcs h1 _ (by rw [k3]; exact hs1), k1, h0.pcs _ hs1]
+      · exact (step_same cfg s hd t hta (by rw [h1.act]; exact ht)).1
+    simp only [run, hc1, Bool.false_eq_true, if_false]
+    refine ⟨⟨(step cfg s hd).2 :: outs, last, by rw [j1]; rfl, ?_, ?_, j4, j5⟩, by rw [i2, hseg], ?_, i4, i5.trans k1, i6.trans k2⟩
+    · intro o ho
+      simp only [List.mem_cons] at ho
+      rcases ho with rfl | ho
+      · exact ⟨step_in_body_ev cfg s hd h1.act, he1, hc1⟩
+      · exact j2 o ho
+    · rw [j3, hseg, hfirst _ h0.notStruct]
+    · intro t ht
+      rw [i3 t ht]
+      exact hfirst t ht
+
+/-! Non-vacuity: the structure of `exStruct` (statements 2-13: nested nameless union, ALIGN, named inner structure) started after
+`org 256` satisfies every hypothesis of `C10_struct_emits_nothing`. -/
+def exBodyHd : Stmt := ⟨none, .struct (some 1) false⟩
+def exBody : List Stmt :=
+  [⟨some 2, .res 2⟩, ⟨none, .struct none true⟩, ⟨some 3, .res 4⟩, ⟨some 4, .res 2⟩, ⟨none, .endstruct⟩, ⟨none, .align 4 none⟩,
+   ⟨none, .struct (some 5) false⟩, ⟨some 6, .res 3⟩, ⟨none, .endstruct⟩, ⟨some 7, .res 1⟩]
+example : RunPre {} AddrSpec.manualSegs (AddrSpec.init AddrSpec.manualSegs 0) (exBodyHd :: (exBody ++ [⟨none, .endstruct⟩])) :=
+  runPreB_sound _ _ _ _ (by decide)
+example : InBody AddrSpec.manualSegs (AddrSpec.init AddrSpec.manualSegs 0) (exBodyHd :: exBody) := inBodyB_sound _ _ _ (by decide)
+example : ((AddrSpec.run AddrSpec.manualSegs (AddrSpec.init AddrSpec.manualSegs 0) (exBodyHd :: (exBody ++ [⟨none, .endstruct⟩]))).map
+    (fun r => r.1.frames.isEmpty)) = some true := by decide
+
+/-- **The length of a union is the maximum of its members, every member lies at offset 0.**  `nm UNION`, members
+`l: DS k` (`0 < k < 2^31`), `ENDUNION`, started outside a body from related states: the model defines every member `nm_l` as 0
+and `nm_LEN` as the maximum of the `k` (`maxLen 0 ms`, characterised by `C10_maxLen_is_max`), reports no error and ends in a
+state related to the unchanged spec state. -/
+theorem C10_union_length_is_max (cfg : Cfg) (segs : Nat → Nat → AddrSpec.SegInfo) (hag : Agree segs) (s : St) (a : AddrSpec.A)
+    (hR : R s a) (hout : a.frames = []) (nm : Nat) (ms : List (Nat × Int)) (hm : ∀ m ∈ ms, 0 < m.2 ∧ m.2 < 2147483648) :
+    (run cfg s (unionProg nm ms)).2.map (fun o => o.defs) =
+      [] :: (ms.map (fun m => [(⟨[nm], some m.1⟩, 0)]) ++ [[(⟨[nm], none⟩, maxLen 0 ms)]]) ∧
+    (∀ o ∈ (run cfg s (unionProg nm ms)).2, o.errs = [] ∧ o.crash = false) ∧ R (run cfg s (unionProg nm ms)).1 a := by
+  obtain ⟨hrun, hpre⟩ := spec_union_prog cfg segs a hout nm ms hm
+  obtain ⟨r1, r2, r3, _⟩ := C10_refine cfg segs hag _ s a hR hpre _ _ hrun
+  refine ⟨?_, r3, r1⟩
+  rw [r2]
+  have h0 : (0 : Int) ≤ maxLen 0 ms := (maxLen_ge ms 0).1
+  have h1 : maxLen 0 ms < 2147483648 := maxLen_lt _ ms 0 (by decide) (fun m hx => (hm m hx).2)
+  have hw : wrap64 (maxLen 0 ms) = maxLen 0 ms := wrap64_small h0 (by omega)
+  have hz : wrap64 0 = 0 := by decide
+  simp [wrapDefs, hw, hz]
+
+/-- `maxLen 0 ms` is the maximum: an upper bound of all member lengths that is attained (or 0 for an empty union) -/
+theorem C10_maxLen_is_max (ms : List (Nat × Int)) :
+    (∀ m ∈ ms, m.2 ≤ maxLen 0 ms) ∧ (maxLen 0 ms = 0 ∨ ∃ m ∈ ms, maxLen 0 ms = m.2) :=
+  ⟨(maxLen_ge ms 0).2, maxLen_attained ms 0⟩
+
+example : (∀ m ∈ [((2 : Nat), (4 : Int)), (3, 2), (4, 7)], 0 < m.2 ∧ m.2 < 2147483648) ∧ maxLen 0 [(2, 4), (3, 2), (4, 7)] = 7 := by decide
+
+/-- **A nested structure contributes its total to the parent at ENDSTRUCT.**  Inner frame `g` (length `topLen g`: its counter, or
+the recorded maximum if it is a union) inside parent `p`: the closing statement defines the inner length symbol (if named),
+emits nothing, reports no error, stays inside the parent's body, and the parent continues at `p.cur + topLen g` (parent is a
+STRUCT: the inner structure occupies its length at the offset where it was opened) resp. records `max p.len (topLen g)` with the
+counter back at 0 (parent is a UNION). -/
+theorem C10_nested_struct_total (cfg : Cfg) (segs : Nat → Nat → AddrSpec.SegInfo) (hag : Agree segs) (s : St) (a : AddrSpec.A)
+    (hR : R s a) (g p : AddrSpec.SFrame) (gs : List AddrSpec.SFrame) (hfr : a.frames = g :: p :: gs) (lab : Option Nat)
+    (hp : Pre cfg segs a ⟨lab, .endstruct⟩) :
+    ∀ r, r = step cfg s ⟨lab, .endstruct⟩ →
+    r.2.defs = wrapDefs (lenDefs g (p :: gs)) ∧ r.2.errs = [] ∧ r.2.crash = false ∧ r.2.ev = .none ∧ r.1.actPC = structSeg ∧
+    (p.isUnion = false → r.1.pcs structSeg = p.cur + topLen g ∧ R r.1 { a with frames := { p with cur := p.cur + topLen g } :: gs }) ∧
+    (p.isUnion = true → r.1.pcs structSeg = 0 ∧ R r.1 { a with frames := { p with len := max p.len (topLen g) } :: gs }) := by
+  intro r hr
+  subst hr
+  have hin : Rin s a := R_frames_ne hR (by rw [hfr]; simp)
+  have hsim := refine_step cfg segs hag hR ⟨lab, .endstruct⟩ hp
+  unfold Sim at hsim
+  have hspec : AddrSpec.step segs a ⟨lab, .endstruct⟩ =
+      .ok { a with frames := (if p.isUnion then { p with len := max p.len (topLen g) } else { p with cur := g.base + topLen g }) :: gs }
+        (lenDefs g (p :: gs)) := by
+    rw [spec_step_label, spec_end_inner segs a g p gs hfr]
+    have : AddrSpec.labelDefs a ⟨lab, .endstruct⟩ = [] := by cases lab <;> rfl
+    rw [this]
+    rfl
+  rw [hspec] at hsim
+  obtain ⟨q1, q2, q3, q4⟩ := hsim
+  -- the parent's counter is the base of the inner frame
+  obtain ⟨f, fs, _, hk0, hr⟩ := Rin_top_eq hin hfr
+  have hbase : g.base = p.cur := by
+    cases fs with
+    | nil => exact absurd hr (by simp [FR])
+    | cons f2 fs2 => exact hr.1.cb
+  have hin' := R_frames_ne q1 (by simp)
+  have hcnt := (Rin_counter hin').1
+  refine ⟨by simpa using q4, q2, q3, step_in_body_ev cfg s _ hin'.act, hin'.act, ?_, ?_⟩
+  · intro hu
+    rw [if_neg (by simp [hu]), hbase] at q1 hcnt
+    exact ⟨by rw [hcnt]; simp [AddrSpec.dollar], q1⟩
+  · intro hu
+    have huc : p.cur = 0 := by
+      cases fs with
+      | nil => exact absurd hr (by simp [FR])
+      | cons f2 fs2 => exact hr.1.ucur hu
+    rw [if_pos hu] at q1 hcnt
+    exact ⟨by rw [hcnt]; simp [AddrSpec.dollar, huc], q1⟩
+
+/-! Non-vacuity of `C10_nested_struct_total` and a complete instance: `N1 struct / N2: ds 2 / N5 struct / N6: ds 3 / endstruct /
+N7: ds 1 / endstruct` gives `N1_N5 = 2`, `N1_N5_LEN = 3`, `N1_N7 = 2 + 3`, `N1_LEN = 2 + 3 + 1`. -/
+def exNested : List Stmt :=
+  [⟨none, .struct (some 1) false⟩, ⟨some 2, .res 2⟩, ⟨none, .struct (some 5) false⟩, ⟨some 6, .res 3⟩, ⟨none, .endstruct⟩,
+   ⟨some 7, .res 1⟩, ⟨none, .endstruct⟩]
+example : RunPre {} AddrSpec.manualSegs (AddrSpec.init AddrSpec.manualSegs 0) exNested := runPreB_sound _ _ _ _ (by decide)
+example : (run {} (init 0) exNested).2.map (fun o => o.defs) =
+    [[], [(⟨[1], some 2⟩, 0)], [(⟨[1], some 5⟩, 2)], [(⟨[1, 5], some 6⟩, 2)], [(⟨[1, 5], none⟩, 3)], [(⟨[1], some 7⟩, 5)], [(⟨[1], none⟩, 6)]] := by
+  decide
+
 /-- **Known finding `org-under-phase`** (negation of the refinement for the pinned `CodeORG_Core`): the program
 `org $1000 / phase $8000 / db 1 / org $2000 / db 2 / dephase / db 3` is accepted by the spec machine (load
 addresses $1000, $2000, $2001) while the model of the pinned code ends with an address overflow error. -/
@@ -232,6 +474,21 @@ theorem C10_finding_org_under_phase :
     (AddrSpec.run AddrSpec.manualSegs (AddrSpec.init AddrSpec.manualSegs 0) witnessOrg).isSome = true ∧
     ((run { orgLoad := false } (init 0) witnessOrg).2.any (fun o => o.errs.contains errAdrOverflow)) = true ∧
     ((run { orgLoad := true } (init 0) witnessOrg).2.all (fun o => o.errs.isEmpty)) = true := by
+  refine ⟨by decide, by decide, by decide⟩
+
+/-- **Known finding `struct-length-wraps-at-2^31`** (the point the side condition `lbOut … < 2^31` of `Pre` excludes): the
+structure `N1 struct / N2: ds 40000000h / N3: ds 40000000h / N4: ds 1 / endstruct` is accepted by the spec machine with
+`N1_LEN = 2147483649`; the model of `BumpStructLength(…, (LongInt) ProgCounter())` drops the final length as negative and
+defines `N1_LEN = 1073741824` (the offset of `N3`), like the real assembler; the field `N1_N4 = 2147483648` is right. -/
+def witnessBig : List Stmt :=
+  [⟨none, .struct (some 1) false⟩, ⟨some 2, .res 1073741824⟩, ⟨some 3, .res 1073741824⟩, ⟨some 4, .res 1⟩, ⟨none, .endstruct⟩]
+
+theorem C10_finding_struct_length_wraps :
+    ((AddrSpec.run AddrSpec.manualSegs (AddrSpec.init AddrSpec.manualSegs 0) witnessBig).map (fun r => r.2.drop 3)) =
+      some [[(⟨[1], some 4⟩, 2147483648)], [(⟨[1], none⟩, 2147483649)]] ∧
+    ((run {} (init 0) witnessBig).2.drop 3).map (fun o => (o.defs, o.errs)) =
+      [([(⟨[1], some 4⟩, 2147483648)], []), ([(⟨[1], none⟩, 1073741824)], [])] ∧
+    runPreB {} AddrSpec.manualSegs (AddrSpec.init AddrSpec.manualSegs 0) witnessBig = false := by
   refine ⟨by decide, by decide, by decide⟩
 
 end AslModel.C10
